@@ -11,7 +11,7 @@ import wcsfam as W
 from core import err_kind
 
 ID = "C19"
-MODEL_OP = "table_coord (interp1 / inv1 / sliceTable / interpolateTable)"
+MODEL_OP = "table_coord (interp1 / inv1 / sliceTable / meshChain / interpolateTable)"
 RULE = ("table coordinates built from Quantity (units m, pix, s, deg, dimensionless), multi-table Quantity, Time, 1-D SkyCoord, "
         "meshed SkyCoord and 2-D SkyCoord tables of length 1-8 with increasing / decreasing / non-monotonic dyadic content, alone "
         "or joined with & (1-3 members); evaluated at every integer pixel, at in-between positions (eighths) and outside the "
@@ -343,6 +343,21 @@ def run(case):
                 if not fails and not all(np.isnan(x) for x in got):
                     fails.append(f"coord[{items}][{items2}] has {lens2} entries but gives {got} at pixel {q}")
                 tags.append("slice-of-slice")
+                # the slice each meshed component keeps lazily after the two steps (model: meshChain)
+                kept, chains = [], []
+                subs = getattr(sc2, "_table_coords", [sc2])
+                p = 0
+                for m, sub in zip(case["members"], subs):
+                    if m["kind"] == "sky2mesh" and getattr(sub, "mesh", False):
+                        for c in range(2):
+                            n0 = len(m["tables"][c])
+                            slc = sub._slice[c]
+                            lo, hi = slc.indices(n0)[:2]
+                            kept.append([int(lo), int(hi)])
+                            chains.append({"n": n0, "items": [[items[p + c].start, items[p + c].stop], [items2[p + c].start, items2[p + c].stop]]})
+                    p += n_inputs(m)
+                sl_obs["mesh_kept"] = kept
+                sl_obs["mesh_chains"] = chains
         except Exception as e:
             fails.append(f"coord[{items}] raised {type(e).__name__}: {str(e)[:120]}")
     obs["slice"] = sl_obs
@@ -445,6 +460,7 @@ def run(case):
                             "inv": [[] for _ in tables] if not obs["inv"] else
                                    [[frac(interp_ref([float(Fraction(*x)) if isinstance(x, list) else x for x in t], ix[s])) for ix, _ in obs["inv"]] for t, s in zip(tables, slots)],
                             "slices": [[None, None]] * len(tables) if not obs["slice"] else [obs["slice"]["items"][s] for s in slots],
+                            "meshChains": (obs["slice"] or {}).get("mesh_chains", []),
                             "grids": [[] for _ in tables] if not obs["interp"] else [[frac(g) for g in obs["interp"]["grids"][s]] for s in slots]}
     res["obs"] = obs
     if fails:
@@ -481,6 +497,11 @@ def compare(case, r, m):
             off = o["slice"]["offs"][s]
             if [unfrac(x) for x in tab] != full[off:off + len(tab)] or not tab:
                 return f"sliced table {t}: model {tab} is not the original from offset {off}"
+    if o["slice"] and o["slice"].get("mesh_kept"):
+        for ch, kept, mk in zip(o["slice"]["mesh_chains"], o["slice"]["mesh_kept"], m["meshChains"]):
+            empty_i, empty_m = kept[1] <= kept[0], mk[1] <= mk[0]
+            if empty_i != empty_m or (not empty_i and list(kept) != list(mk)):
+                return f"meshed component of {ch['n']} entries sliced by {ch['items']}: implementation keeps {kept}, model {mk}"
     if o["interp"]:
         for (ks, got) in o["interp"]["vals"]:
             want = []
